@@ -21,12 +21,12 @@ TIERS = {
 FAULT_KINDS = []
 PROBES = ["unset_strict", "unset_nonstrict", "secret_planted_and_unset_read", "quoted_reserved_name", "digit_initial_name", "non_ascii_value",
           "newline_value", "empty_value", "field_named_env", "let_env", "read_in_library", "empty_environment", "var_named_env",
-          "env_passed_as_value", "tiny_environment", "failing_file_built_first", "let_env_variant", "reached_by_recursive_walk", "wellknown_name", "same_file_built_twice", "null_test_position"]
+          "env_passed_as_value", "tiny_environment", "failing_file_built_first", "let_env_variant", "reached_by_recursive_walk", "wellknown_name", "same_file_built_twice", "null_test_position", "long_name", "template_with_env_field"]
 PROBES_OPTIONAL = False
 RESERVED = ["let", "import", "self", "mod", "out", "assert", "true", "false", "NULL", "select", "func", "module", "map", "filter", "reduce",
             "include", "fail", "not", "in", "is", "as", "env", "convert", "constraint", "TRACE"]
 POSITIONS = ["top", "func", "module", "quoted", "lib", "format", "tuple_value", "list_value", "func_arg", "module_arg", "tuple_holding_env",
-             "null_compare", "null_compare_flipped", "select_on_null"]
+             "null_compare", "null_compare_flipped", "select_on_null", "template_with_env_field"]
 # positions whose value is a function of set/unset only (a comparison with NULL), not the variable's text
 NULL_TESTS = {"null_compare": (False, True), "null_compare_flipped": (True, False), "select_on_null": ("is-set", "is-null")}
 VALUE_CLASSES = ["ascii", "empty", "blanks", "dquote", "squote", "dollar", "backquote", "backslash", "newline", "tab", "bmp", "astral",
@@ -75,7 +75,7 @@ def make_value(rng, cls, tok):
 
 def make_name(rng, used):
     for _ in range(50):
-        kind = rng.weighted([("upper", 6), ("mixed", 3), ("lower", 2), ("underscore", 1), ("digit", 1), ("reserved", 1), ("single", 1), ("wellknown", 2)])
+        kind = rng.weighted([("upper", 6), ("mixed", 3), ("lower", 2), ("underscore", 1), ("digit", 1), ("reserved", 1), ("single", 1), ("wellknown", 2), ("long", 1)])
         if kind == "upper":
             n = "".join(rng.choice("ABCDEFGHIJKLMNOPQRSTUVWXYZ_") for _ in range(rng.between(2, 10)))
             if n[0] == "_" and rng.chance(50):
@@ -92,6 +92,8 @@ def make_name(rng, used):
                 n = "".join(rng.choice("0123456789") for _ in range(rng.between(1, 4)))   # all digits, leading zeros included
         elif kind == "reserved":
             n = rng.choice(RESERVED)
+        elif kind == "long":
+            n = "SERVICE_" + "_".join(rng.token(6).upper() for _ in range(rng.between(5, 10)))     # 40-80 characters
         elif kind == "wellknown":
             # variables the compiler, its libraries or the shell give a meaning to; for `env` they are variables like any other
             n = rng.choice(["UCG_IMPORT_PATH", "PATH", "USER", "PWD", "OLDPWD", "XDG_CACHE_HOME", "TERM", "LANG", "LC_ALL", "RUST_LOG", "TMPDIR", "SHELL", "EDITOR", "NO_COLOR"])
@@ -150,11 +152,11 @@ def generate(rng, tier, idx):
         elif unset_budget:
             unset_budget -= 1
             # (format renders NULL as the text "NULL"; what format does with NULL is not this property's business)
-            reads.append({"name": make_name(rng, used), "set": False, "pos": rng.choice([p for p in POSITIONS if p != "format"])})
+            reads.append({"name": make_name(rng, used), "set": False, "pos": rng.choice([p for p in POSITIONS if p not in ("format", "template_with_env_field")])})
     if not reads:
         reads.append({"name": make_name(rng, used), "set": False, "pos": "top"})
     for r in reads:
-        if needs_quote(r["name"]) and r["pos"] not in ("quoted",) and r["pos"] not in NULL_TESTS:
+        if needs_quote(r["name"]) and r["pos"] not in ("quoted", "template_with_env_field") and r["pos"] not in NULL_TESTS:
             r["pos"] = "quoted"
     # a direct read after env was handed around as a value (two cooperating sites)
     if any(r["pos"] in ("func_arg", "module_arg", "tuple_holding_env") for r in reads) and readable:
@@ -218,6 +220,10 @@ def render_programs(world):
             L.append("let m%d = module {e = env} => { let r = mod.e.%s; };\nlet v%d = m%d{}.r;" % (i, r["name"], i, i))
         elif pos == "tuple_holding_env":
             L.append("let h%d = {e = env};\nlet v%d = h%d.e.%s;" % (i, i, i, r["name"]))
+        elif pos == "template_with_env_field":
+            # inside "@{...}" the name env still means the environment; the argument's own field is item.env
+            L.append('let v%d = "@{%s}" %% {env = {%s = "shadow-field"}, other = 1};' % (
+                i, s.replace('"', '\\"'), r["name"] if not needs_quote(r["name"]) else "x"))
         elif pos == "null_compare":
             L.append("let v%d = %s == NULL;" % (i, s))
         elif pos == "null_compare_flipped":
@@ -332,6 +338,10 @@ def execute(world, sb, res):
         res.key([r["pos"], r["set"], world["strict"], cls, name_class(r["name"])], nontrivial)
         if r["pos"] in NULL_TESTS:
             res.probe("null_test_position")
+        if len(r["name"]) > 40:
+            res.probe("long_name")
+        if r["pos"] == "template_with_env_field":
+            res.probe("template_with_env_field")
         if name_class(r["name"]) == "reserved":
             res.probe("quoted_reserved_name")
         if r["name"] in ("UCG_IMPORT_PATH", "PATH", "USER", "PWD", "OLDPWD", "XDG_CACHE_HOME", "TERM", "LANG", "LC_ALL", "RUST_LOG", "TMPDIR", "SHELL", "EDITOR", "NO_COLOR"):
